@@ -7,14 +7,21 @@ VERIF = os.path.dirname(os.path.dirname(os.path.abspath(__file__)))
 
 def main():
     man = json.load(open(os.path.join(VERIF, 'MANIFEST.json')))
-    props = sys.argv[1:] or [c['property_id'] for c in man['checks']]
+    args = sys.argv[1:]
+    prefix = None                       # --only-prefix y : only patches y*.diff, merged into the existing RESULTS.json
+    if '--only-prefix' in args:
+        i = args.index('--only-prefix'); prefix = args[i+1]; del args[i:i+2]
+    props = args or [c['property_id'] for c in man['checks']]
     d = os.path.join(VERIF, 'benign')
     patches = sorted(f for f in os.listdir(d) if f.endswith('.diff'))
     results = {}
+    if prefix:
+        patches = [f for f in patches if f.startswith(prefix)]
+        results = json.load(open(os.path.join(d, 'RESULTS.json')))
     bad = 0
     def one(p):
         return p, run(os.path.join(d, p), props)
-    with cf.ThreadPoolExecutor(max_workers=8) as ex:
+    with cf.ThreadPoolExecutor(max_workers=int(os.environ.get('SWEEP_WORKERS', '8'))) as ex:
         for p, res in ex.map(one, patches):
             results[p] = res
             if 'error' in res:
